@@ -168,6 +168,7 @@ impl<T> RcInner<T> {
     ///
     /// The given `ptr` must not be shared across more than one thread.
     pub(crate) unsafe fn dealloc(ptr: *mut Self) {
+        vy!(1100, ptr, 0);
         drop(Box::from_raw(ptr));
     }
 
@@ -183,13 +184,16 @@ impl<T> RcInner<T> {
 
     #[inline]
     pub(crate) fn increment_strong(&self) -> bool {
+        vy!(100, self as *const Self, 0);
         let val = State::from_raw(self.state.fetch_add(COUNT, Ordering::SeqCst));
+        vy!(1000, self as *const Self, val.as_raw());
         if val.destructed() {
             return false;
         }
         if val.strong() == 0 {
             // The previous fetch_add created a permission to run decrement again.
             // Now create an actual reference.
+            vy!(101, self as *const Self, 0);
             self.state.fetch_add(COUNT, Ordering::SeqCst);
         }
         true
@@ -197,6 +201,7 @@ impl<T> RcInner<T> {
 
     #[inline]
     unsafe fn try_dealloc(ptr: *mut Self) {
+        vy!(102, ptr, 0);
         if State::from_raw((*ptr).state.load(Ordering::SeqCst)).weak() > 0 {
             Self::decrement_weak(ptr, None);
         } else {
@@ -206,11 +211,14 @@ impl<T> RcInner<T> {
 
     #[inline]
     pub(crate) fn increment_weak(&self, count: u32) {
+        vy!(103, self as *const Self, 0);
         let mut old = State::from_raw(self.state.load(Ordering::SeqCst));
+        vy!(1003, self as *const Self, old.as_raw());
         while !old.weaked() {
             // In this case, `increment_weak` must have been called from `Rc::downgrade`,
             // guaranteeing weak > 0, so it can’t be incremented from 0.
             debug_assert!(old.weak() != 0);
+            vy!(104, self as *const Self, 0);
             match self.state.compare_exchange(
                 old.as_raw(),
                 old.with_weaked(true).add_weak(count).as_raw(),
@@ -221,6 +229,7 @@ impl<T> RcInner<T> {
                 Err(curr) => old = State::from_raw(curr),
             }
         }
+        vy!(105, self as *const Self, count);
         if State::from_raw(
             self.state
                 .fetch_add(count as u64 * WEAK_COUNT, Ordering::SeqCst),
@@ -228,6 +237,7 @@ impl<T> RcInner<T> {
         .weak()
             == 0
         {
+            vy!(106, self as *const Self, 0);
             self.state.fetch_add(WEAK_COUNT, Ordering::SeqCst);
         }
     }
@@ -235,6 +245,7 @@ impl<T> RcInner<T> {
     #[inline]
     pub(crate) unsafe fn decrement_weak(ptr: *mut Self, guard: Option<&Guard>) {
         debug_assert!(State::from_raw((*ptr).state.load(Ordering::SeqCst)).weak() >= 1);
+        vy!(107, ptr, 0);
         if State::from_raw((*ptr).state.fetch_sub(WEAK_COUNT, Ordering::SeqCst)).weak() == 1 {
             guard.defer_with_inner(ptr, |inner| Self::try_dealloc(inner));
         }
@@ -242,8 +253,10 @@ impl<T> RcInner<T> {
 
     #[inline]
     pub(crate) fn is_not_destructed(&self) -> bool {
+        vy!(108, self as *const Self, 0);
         let mut old = State::from_raw(self.state.load(Ordering::SeqCst));
         while !old.destructed() && old.strong() == 0 {
+            vy!(109, self as *const Self, old.as_raw());
             match self.state.compare_exchange(
                 old.as_raw(),
                 old.add_strong(1).as_raw(),
@@ -261,11 +274,16 @@ impl<T> RcInner<T> {
 impl<T: RcObject> RcInner<T> {
     #[inline]
     pub(crate) unsafe fn decrement_strong(ptr: *mut Self, count: u32, guard: Option<&Guard>) {
+        vy!(110, ptr, count);
         let epoch = global_epoch();
+        vy!(1010, ptr, epoch);
         // Should mark the current epoch on the strong count with CAS.
         let hit_zero = loop {
+            vy!(111, ptr, 0);
             let curr = State::from_raw((*ptr).state.load(Ordering::SeqCst));
             debug_assert!(curr.strong() >= count);
+            vy!(1011, ptr, curr.as_raw());
+            vy!(112, ptr, 0);
             if (*ptr)
                 .state
                 .compare_exchange(
@@ -276,8 +294,10 @@ impl<T: RcObject> RcInner<T> {
                 )
                 .is_ok()
             {
+                vy!(1012, ptr, 1);
                 break curr.strong() == count;
             }
+            vy!(1012, ptr, 0);
         };
 
         let trigger_recl = |guard: &Guard| {
@@ -297,13 +317,16 @@ impl<T: RcObject> RcInner<T> {
 
     #[inline]
     unsafe fn try_destruct(ptr: *mut Self) {
+        vy!(113, ptr, 0);
         let mut old = State::from_raw((*ptr).state.load(Ordering::SeqCst));
         debug_assert!(!old.destructed());
+        vy!(1013, ptr, old.as_raw());
         loop {
             if old.strong() > 0 {
                 Self::decrement_strong(ptr, 1, None);
                 return;
             }
+            vy!(114, ptr, old.as_raw());
             match (*ptr).state.compare_exchange(
                 old.as_raw(),
                 old.with_destructed(true).as_raw(),
@@ -346,17 +369,22 @@ unsafe fn dispose_general_node<T: RcObject>(
         }
     }
 
+    vy!(1020, ptr, depth);
     if depth >= 1024 {
         // Prevent a potential stack overflow.
         guard.defer_with_inner(rc, |rc| RcInner::try_destruct(rc));
         return;
     }
 
+    vy!(115, ptr, 0);
     let state = State::from_raw(rc.state.load(Ordering::SeqCst));
+    vy!(1015, ptr, state.as_raw());
     let node_epoch = state.epoch();
     debug_assert_eq!(state.strong(), 0);
 
+    vy!(116, ptr, 0);
     let curr_epoch = global_epoch();
+    vy!(1016, ptr, curr_epoch);
     let modu: Modular<EPOCH_WIDTH> = Modular::new(curr_epoch as isize + 1);
     let mut outgoings = Vec::new();
 
@@ -364,9 +392,12 @@ unsafe fn dispose_general_node<T: RcObject>(
     // old enough, `modu.le` may return false.
     if depth == 0 || modu.le(node_epoch as _, curr_epoch as isize - 3) {
         // The current node is immediately reclaimable.
+        vy!(1101, ptr, depth);
         rc.data_mut().pop_edges(&mut outgoings);
         unsafe {
+            vy!(1102, ptr, depth);
             ManuallyDrop::drop(&mut rc.storage);
+            vy!(117, ptr, 0);
             if State::from_raw(rc.state.load(Ordering::SeqCst)).weaked() {
                 RcInner::decrement_weak(rc, Some(guard));
             } else {
@@ -384,10 +415,13 @@ unsafe fn dispose_general_node<T: RcObject>(
 
             // Decrement next node's strong count and update its epoch.
             let next_cnt = loop {
+                vy!(118, next_ptr.as_raw(), link_epoch);
                 let cnt_curr = State::from_raw(next_ref.state.load(Ordering::SeqCst));
+                vy!(1018, next_ptr.as_raw(), cnt_curr.as_raw());
                 let next_epoch =
                     modu.max(&[node_epoch as _, link_epoch as _, cnt_curr.epoch() as _]);
                 let cnt_next = cnt_curr.sub_strong(1).with_epoch(next_epoch as _);
+                vy!(119, next_ptr.as_raw(), cnt_next.as_raw());
 
                 if next_ref
                     .state
@@ -399,8 +433,10 @@ unsafe fn dispose_general_node<T: RcObject>(
                     )
                     .is_ok()
                 {
+                    vy!(1019, next_ptr.as_raw(), 1);
                     break cnt_next;
                 }
+                vy!(1019, next_ptr.as_raw(), 0);
             };
 
             // If the reference count hit zero, try dispose it recursively.
@@ -410,6 +446,7 @@ unsafe fn dispose_general_node<T: RcObject>(
         }
     } else {
         // It is likely to be unsafe to reclaim right now.
+        vy!(1021, ptr, depth);
         guard.defer_with_inner(rc, |rc| RcInner::try_destruct(rc));
     }
 }
